@@ -70,10 +70,12 @@ PROPS["C07"] = {
 
 PROPS["C09"] = {
     "level": "exploration",
-    "rule": "rounds of T in {2,4,8,16} OS threads released by a barrier, each running 24 operations over the state real flows share (one tcp::Context with its salt cache, one client context, the process-wide UDP cipher cache, one shared server UDP codec and user table; colliding session ids on purpose); every operation's outcome is known a priori through the reference implementation (round-trip equality), so a shared corruption cannot hide; monitors: result oracle, panic hook, and ThreadSanitizer on the same binary (reports with a frame in an octo_squirrel crate); the evidence reports the distinct overlap patterns observed; evaluations = operations; distinct = rounds",
+    "rule": "rounds of T in {2,4,8,16} OS threads released by a barrier, each running 24 operations over the state real flows share (one tcp::Context with its salt cache, one client context, the process-wide UDP cipher cache, one shared server UDP codec and user table; colliding session ids on purpose); every operation's outcome is known a priori through the reference implementation (round-trip equality), so a shared corruption cannot hide; monitors: result oracle, panic hook, and ThreadSanitizer on the same binary (reports with a frame in an octo_squirrel crate); the evidence reports the distinct overlap patterns observed; node level: real client/server pairs on 2/4/8 worker threads relay a burst of 24/48 concurrent TCP flows and 8 concurrent UDP applications at the same time (positional-stream and unique-id oracles per flow), and in the thorough tier the same runs on ThreadSanitizer-built nodes whose reports are collected from per-process log files; evaluations = operations + flows; distinct = rounds + flows",
     "assumptions": TB + ["schedules are sampled, not enumerated: 'held on the interleavings observed'", "TSan reports without an in-repo frame are counted as foreign and not judged", "the running-node form (2..64 concurrent flows on 2..16 worker threads) is exercised by the C01/C02 checks"],
     "plan": [
         {"name": "stress-native", "check": "c09"},
+        {"name": "nodes-native", "check": "c09", "bin": "osv-e2e", "timeout": {"quick": 900, "thorough": 2400}},
+        {"name": "nodes-tsan", "check": "c09", "bin": "osv-e2e", "variant": "tsan", "node_sanitizer_logs": True, "tiers": ("thorough",), "optional": True, "env": {"TSAN_OPTIONS": "halt_on_error=0:exitcode=0:report_signal_unsafe=0"}, "timeout": {"quick": 1800, "thorough": 3600}},
         {"name": "stress-tsan", "check": "c09", "variant": "tsan", "scale": {"quick": 0.15, "thorough": 0.4}, "env": {"TSAN_OPTIONS": "halt_on_error=0:exitcode=0:report_signal_unsafe=0"}, "optional": True},
     ],
 }
